@@ -646,3 +646,32 @@ def rule_visit_all(F, rep, rid, pred, floor, where_txt):
     rep.ok(rid, 'scan', None, '%d for loops in void functions of %s' % (n, where_txt))
     if n < floor:
         raise AnalysisBroken('%s: only %d for loops in void functions of %s (%d confirmed)' % (rid, n, where_txt, floor))
+
+
+def markup_text_searches(f):
+    """Calls that search a std::string for a literal that starts with '<' (markup looked for by text instead of through the XML API)."""
+    out = []
+    for c in f.walk():
+        if c.get('k') == 'Call' and c.get('mc') and c.get('fn') in ('find', 'rfind', 'find_first_of', 'compare', 'starts_with') and 'basic_string' in (c.get('cls') or c.get('callee') or ''):
+            for a in c.get('c', [])[1:]:
+                for x in walk(a):
+                    if x.get('k') == 'Str' and str(x.get('v', '')).lstrip('"').startswith('<'):
+                        out.append(c)
+    return out
+
+
+def rule_markup_search(F, rep, rid, pred, where_txt):
+    from facts import AnalysisBroken, fixture_funcs
+    rep.rule(rid, 'XML text kept in strings (the math of a component, reset values) is examined through the XML API in %s, never by searching the text for markup such as "<cn": a text search does not see namespace-prefixed elements (<mml:cn ...>), '
+                  'so what is decided from it (which units a component needs, hence which imports are fetched) is wrong for such documents' % where_txt)
+    fx = fixture_funcs('markupsearch')
+    if len(markup_text_searches(fx['fixtureMarkupSearchBad'])) != 1 or markup_text_searches(fx['fixtureMarkupSearchGood']):
+        raise AnalysisBroken('%s: the detector does not separate the two fixture functions (sa/fixtures/src/markupsearch.cpp)' % rid)
+    n = 0
+    for g in F.funcs.values():
+        if not pred(g):
+            continue
+        n += 1
+        for c in markup_text_searches(g):
+            rep.fail(rid, '%s|%s' % (g.short.split('::')[-1], render(c)[:50]), g.where(c), '%s searches XML text for markup with `%s`' % (g.short, render(c)[:60]))
+    rep.ok(rid, 'scan', None, 'no text search for markup in %d functions of %s (fixture: 1 of 2 functions flagged, as expected)' % (n, where_txt))
